@@ -166,7 +166,7 @@ Fixpoint evalConstants (q : Q) : Q :=
       match ch with QConst _ => ch | _ => QBoost w ch end
   | QSubstring p _ _ _ => if is_nil p then QConst true else q
   | QRegexp re _ _ _ => if N.eqb (rx_op re) OpEmptyMatch then QConst true else q
-  | QBranch p _ => if is_nil p then QConst true else q
+  | QBranch p ex => if is_nil p && negb ex then QConst true else q
   | QBranchesRepos l => if forallb (fun br => is_nil (snd br)) l then QConst false else q
   | QRepoIDs ids => if is_nil ids then QConst false else q
   | QRepoSet s => if is_nil s then QConst false else q
@@ -290,12 +290,12 @@ Fixpoint eval {D} (e : atoms D) (q : Q) (d : D) : bool :=
   end.
 
 (** What evalConstants relies on: the empty pattern occurs everywhere, an OpEmptyMatch regexp
-    matches everything, the empty branch pattern is contained in every branch name (and every
-    document is on some branch). *)
+    matches everything, the empty branch pattern is contained (non-exact match) in every branch
+    name (and every document is on some branch). *)
 Record atoms_ok {D} (e : atoms D) : Prop := {
   ok_substr_empty : forall cs nm d, a_substr e [] cs nm d = true;
   ok_regexp_empty : forall re cs nm d, rx_op re = OpEmptyMatch -> a_regexp e re cs nm d = true;
-  ok_branch_empty : forall ex d, a_branch e [] ex d = true;
+  ok_branch_empty : forall d, a_branch e [] false d = true;
 }.
 
 (** ------------------------------------------------------------------ index/eval.go: indexData.simplify *)
